@@ -399,11 +399,16 @@ def ins_job(draw, resume_cycles=(0, 0), nlive=(100, 500),
     kills = []
     for i in range(n_cycles):
         if draw(st.integers(0, 3)) == 0:
-            kills.append({"event": "level", "k": draw(st.integers(1, 3))})
+            # the k-th level is drawn in iteration k: later than the first
+            # checkpoint, so that the next process resumes
+            kills.append({"event": "level",
+                          "k": kw["checkpoint_interval"]
+                          + draw(st.integers(1, 3))})
         else:
-            kills.append(draw(st.floats(0.1, 0.97 if i == 0 else 0.6)))
+            kills.append(draw(st.floats(0.3, 0.97 if i == 0 else 0.6)))
     if kills:
         labels.append(f"kills:{len(kills)}")
+        kw["max_iteration"] = max(kw["max_iteration"], 6)
     return {"model": model, "ins": True, "kwargs": kw, "kills": kills,
             "labels": labels}
 
